@@ -1331,6 +1331,32 @@ fn cmd_c07(seed: u64, n: u64, ops_path: &str, impl_path: &str) -> Result<()> {
             }
         }
     }
+    // guests the import-level model does not describe (a 64-bit memory of their own): whatever the tool decides,
+    // "accepted" must mean "a valid module came out" — checked against the property directly, not the model
+    for (k, a) in api.iter().enumerate() {
+        for with_own_stuff in [false, true] {
+            let mut wat_text = String::from("(module\n");
+            writeln!(wat_text, "  (import \"{}\" \"{}\" (func $f{}))", API_MODULE, a.name, sig_wat(&a.sig)).unwrap();
+            wat_text.push_str("  (memory (export \"memory\") i64 1)\n");
+            if with_own_stuff {
+                wat_text.push_str("  (data (i64.const 16) \"own\")\n  (func (export \"own_add\") (param i32 i32) (result i32) local.get 0 local.get 1 i32.add)\n");
+            }
+            wat_text.push_str(")\n");
+            let Ok(wasm) = wat::parse_str(&wat_text) else { continue };
+            if wasmparser::validate(&wasm).is_err() {
+                continue;
+            }
+            *hist.entry("variant:memory64-guest".to_string()).or_insert(0) += 1;
+            match trampoline(&wasm) {
+                Err(_) => {}
+                Ok(out) => {
+                    if wasmparser::validate(&out).is_err() {
+                        failures.push(format!("memory64 guest importing {} (api #{}): accepted, but the output does not validate", a.name, k));
+                    }
+                }
+            }
+        }
+    }
     ops.flush()?;
     imp.flush()?;
     let mut hs: Vec<String> = hist.iter().map(|(k, v)| format!("\"{}\":{}", k, v)).collect();
